@@ -51,6 +51,7 @@ func probes() []vk.Probe {
 	ps = append(ps, replicateProbes()...)
 	ps = append(ps, protoProbes()...)
 	ps = append(ps, bytesProbes()...)
+	ps = append(ps, sqlProbes()[:1]...)
 	if os.Getenv("VERIF_FUZZING") != "" {
 		// native fuzzing workers only run the byte-parser targets
 		return ps
@@ -58,6 +59,7 @@ func probes() []vk.Probe {
 	ps = append(ps, clientProbes()...)
 	ps = append(ps, diskProbes()...)
 	ps = append(ps, rowProbes()...)
+	ps = append(ps, sqlProbes()[1:]...)
 	if os.Getenv("C16_PROBE_TIMES") != "" {
 		for i := range ps {
 			p := ps[i]
